@@ -436,7 +436,7 @@ fn aggregate_rows(rows: Vec<StringBinding>, query: &SelectQuery<'_>) -> Vec<Stri
                         values
                             .iter()
                             .filter_map(|value| value.parse::<f64>().ok())
-                            .sum::<f64>()
+                            .fold(0.0, |total, value| total + value)
                             .to_string(),
                     ),
                     "AVG" => {
